@@ -25,11 +25,12 @@ CLAIMS = {
             "{64,65,127,128,129,192} and widening_mul at (64,64),(65,64),(64,128),(128,128),(129,65) for ALL operand "
             "pairs with the 64x64->128 limb product abstracted as an uninterpreted function (axioms: 0*x, 1*x, "
             "commutativity, consistency, range); checked/saturating/operators/Product plumbing with the multipliers "
-            "stubbed; every operand pair at widths {0,1,2,7,8,16} with the real multipliers; inv_ring = None for "
-            "every even value.",
+            "stubbed; every operand pair at widths {1,2,7,8,16} with the real multipliers; inv_ring on every value at "
+            "{1,2,3,7,8} (Some(x) canonical with a*x = 1 mod 2^BITS exactly for odd a) and = None for every even "
+            "value at {0,1,7,64,65,128,250}.",
             "The three DoubleWord multiply bodies are decided in C15 (unstubbed, relative to Rust's `*`). Outside: "
-            "LIMBS >= 4 multiplication, inv_ring's Some branch at every width (five dependent 64-bit Newton steps: "
-            "> 600 s), full-range 64-bit products without the abstraction."),
+            "LIMBS >= 4 multiplication, inv_ring's Some branch at 16 bits and above (five dependent 64-bit Newton "
+            "steps: > 600 s), full-range 64-bit products without the abstraction."),
     "C03": ("5/C03",
             "All division forms (div_rem, / % /= %= in all shapes, wrapping_/checked_ forms, div_ceil, "
             "(checked_)next_multiple_of) for every (n, d != 0) at widths {1,7,8,16} incl. the Euclidean contract "
@@ -90,6 +91,14 @@ CLAIMS = {
             "tagged mixing stubs; zero-divisor None; parity, inc, dec. Widths {0,1,7,64,65,128,250}.",
             "Not covered: Pow/Inv/PrimInt::pow, gcd/lcm/extended_gcd forwarding, swap_bytes/from_be/to_be, Num::"
             "from_str_radix, zeroize; Sum/Product are in C01/C02. Rotations use amounts 0..=65535."),
+    "C11": ("5/C11",
+            "mul_redc at N = 1 on an 11-free-bit lattice: m = {2^62-32, 2^62, 2^63-32, 2^63, 2^64-32} + 2x+1 (below, at "
+            "and above both carry thresholds), a, b = small or m-1-small, inv from an independent Newton iteration: "
+            "the result is < m and equals (a*b + k*m)/2^64 reduced once, k = a*b*inv mod 2^64, i.e. a*b*2^-64 mod m; "
+            "witnesses for the subtract-taken and extra-carry paths are required. Thorough: square_redc against its "
+            "definition and Uint::{mul_redc,square_redc} against the slice-level functions on the same lattice.",
+            "Very narrow, stated: N >= 2, anything off the lattice (20 free bits did not finish in 900 s: three "
+            "dependent 64x64 products per row and a debug assertion that needs (v*inv)*m = v*(inv*m))."),
     "C13": ("5/C13",
             "pow/wrapping_pow/overflowing_pow at 1 bit and wrapping_pow at 3 bits for every (base, exponent) "
             "(thorough: all five forms at {1,2,3,7,8}); log2/checked_log2 at every width in "
@@ -158,6 +167,10 @@ CLAIMS = {
 }
 
 NOT_APPLICABLE = {
+    "C12": "input-dependent Euclid/Lehmer loops with a 64-bit division per iteration: Uint<4,1>::gcd did not finish in "
+           "5 min unstubbed or with division shape-pinned, and with the 128-bit prefix path also pinned the unwinding "
+           "assertion fails at the largest bound that finishes (212 s at unwinding 6); the compositional alternative "
+           "needs the same division-heavy from_u64 loops - see DESIGN.md section 5",
     "C19": "quantifies over source programs expanded by a proc-macro inside rustc; no installed engine executes the "
            "proc_macro runtime symbolically and the digit kernel alone exceeds CBMC's reach beyond one character "
            "(measured: OOM at 62 GB on two characters) - see DESIGN.md 5/C19",
